@@ -3,7 +3,8 @@ import itertools
 from harness.props.ptrcommon import *
 PROP = "C03"
 COQ_FILES = ["Machine.v", "Ptr.v", "Ptr_proofs.v"]
-DRIVERS = drivers("CHAIN", ["chain", "xlate"], CFG_XL)
+DRIVERS = drivers("CHAIN", ["chain", "xlate"], CFG_XL) + \
+    [dict(name="ptr_grant_32", src="ptr.cpp", defines=["VERIF_CFG=verif_cfg32g", "PART_BULK", "PTR_GRANT"], ops=["ggrant32"])]   # back end WITH grant/deny
 
 
 def alphabet(cfg, c):
@@ -58,6 +59,16 @@ def gen_cases(tier, rng):
             ops = [rng.choice(alpha) for _ in range(n)]
             cases.append("chain%s %d %s" % (cfg, st, " ".join(ops)))
     # cb must be last in a chain (the driver reports the callback's argument and stops): already true (only used alone)
+    # granting access (a back end that can grant): the tainted pointer handed back is the back end's answer only when the back end
+    # SAID it succeeded; a declined request (whatever pointer it hands back, typically the source itself) falls through to the copy
+    c32 = CFG_XL["32"]
+    A = c32["bases"][0]
+    for num in (1, 16, 4096):
+        for src in (APP_BASE + 64, APP_BASE + 4096):
+            cases.append("ggrant32 %d %d 1 %d %d" % (src, num, A + 8192, 4096))          # accepted: answer inside the sandbox
+            cases.append("ggrant32 %d %d 0 %d %d" % (src, num, src, 4096))               # declined, hands the source back
+            cases.append("ggrant32 %d %d 0 %d %d" % (src, num, A + 8192, 4096))          # declined, some other non-null pointer
+            cases.append("ggrant32 %d %d 0 %d %d" % (src, num, 0, 4096))                 # declined, null
     return cases
 
 
